@@ -464,6 +464,38 @@ Proof.
   - intro Hk. destruct (Hreg p l Hp) as (_ & _ & H). now apply H.
 Qed.
 
+Lemma deliver_one_ok d ign h a : live h a ->
+  ptrs (deliver_one d ign h a) = ptrs h /\ ub (deliver_one d ign h a) = ub h /\
+  ncell (deliver_one d ign h a) = ncell h /\
+  (forall k, get (cells (deliver_one d ign h a)) k =
+             if k =? a then Some (VD (if a =? ign then DNil else d)) else get (cells h) k) /\
+  forall k, live h k -> live (deliver_one d ign h a) k.
+Proof.
+  intro Hl. unfold deliver_one.
+  destruct (wr_ok h a (VD DNil) Hl) as (C1 & P1 & N1 & U1 & L1).
+  destruct (a =? ign).
+  - repeat split; auto. intro k. now rewrite C1, get_set.
+  - destruct (wr_ok (wr h a (VD DNil)) a (VD d)) as (C2 & P2 & N2 & U2 & L2); [now apply L1|].
+    rewrite P2, U2, N2, P1, U1, N1. repeat split; auto.
+    intro k. rewrite C2, C1, !get_set. destruct (k =? a); reflexivity.
+Qed.
+
+Lemma deliver_all_ok d ign l : forall h, (forall c, In c l -> live h c) ->
+  ptrs (fold_left (deliver_one d ign) l h) = ptrs h /\ ub (fold_left (deliver_one d ign) l h) = ub h /\
+  ncell (fold_left (deliver_one d ign) l h) = ncell h /\
+  forall k, get (cells (fold_left (deliver_one d ign) l h)) k =
+            if existsb (N.eqb k) l then Some (VD (if k =? ign then DNil else d)) else get (cells h) k.
+Proof.
+  induction l as [|a l IH]; intros h Hl; cbn [fold_left existsb].
+  - repeat split.
+  - destruct (deliver_one_ok d ign h a) as (P1 & U1 & N1 & C1 & L1); [apply Hl; now left|].
+    destruct (IH (deliver_one d ign h a)) as (P2 & U2 & N2 & C2).
+    { intros c Hc. apply L1, Hl. now right. }
+    rewrite P2, U2, N2, P1, U1, N1. repeat split.
+    intro k. rewrite C2, C1. destruct (N.eqb_spec k a) as [->|Hn]; cbn [orb]; [|reflexivity].
+    destruct (existsb (N.eqb a) l); reflexivity.
+Qed.
+
 Theorem set_value_ref_ok h p d ign l : good h -> get (ptrs h) p = Some l ->
   good (set_value_ref h p d ign) /\ ncell (set_value_ref h p d ign) = ncell h /\
   forall k, (holds h k p -> k <> ign -> get (cells (set_value_ref h p d ign)) k = Some (VD d)) /\
@@ -476,14 +508,15 @@ Proof.
   { intros c Hc. apply Hiff in Hc. unfold holds, live in *. congruence. }
   (* the general branch *)
   assert (General :
-    good (free_ptr (set_all h (rev l) d) p) /\ ncell (free_ptr (set_all h (rev l) d) p) = ncell h /\
-    forall k, (holds h k p -> k <> ign -> get (cells (free_ptr (set_all h (rev l) d) p)) k = Some (VD d)) /\
-              (holds h k p -> exists d', get (cells (free_ptr (set_all h (rev l) d) p)) k = Some (VD d')) /\
-              (~ holds h k p -> get (cells (free_ptr (set_all h (rev l) d) p)) k = get (cells h) k)).
-  { destruct (set_all_ok (rev l) h d) as (P1 & U1 & N1 & C1).
+    good (free_ptr (fold_left (deliver_one d ign) (rev l) h) p) /\
+    ncell (free_ptr (fold_left (deliver_one d ign) (rev l) h) p) = ncell h /\
+    forall k, (holds h k p -> k <> ign -> get (cells (free_ptr (fold_left (deliver_one d ign) (rev l) h) p)) k = Some (VD d)) /\
+              (holds h k p -> exists d', get (cells (free_ptr (fold_left (deliver_one d ign) (rev l) h) p)) k = Some (VD d')) /\
+              (~ holds h k p -> get (cells (free_ptr (fold_left (deliver_one d ign) (rev l) h) p)) k = get (cells h) k)).
+  { destruct (deliver_all_ok d ign (rev l) h) as (P1 & U1 & N1 & C1).
     { intros c Hc. apply Hlive. now apply in_rev. }
-    assert (Hc : forall k, get (cells (free_ptr (set_all h (rev l) d) p)) k =
-                          if existsb (N.eqb k) (rev l) then Some (VD d) else get (cells h) k) by exact C1.
+    assert (Hc : forall k, get (cells (free_ptr (fold_left (deliver_one d ign) (rev l) h) p)) k =
+                          if existsb (N.eqb k) (rev l) then Some (VD (if k =? ign then DNil else d)) else get (cells h) k) by exact C1.
     assert (Hex : forall k, existsb (N.eqb k) (rev l) = true <-> In k l).
     { intro k. rewrite existsb_eqb_in. symmetry. apply in_rev. }
     split; [|split; [exact N1|]].
@@ -491,12 +524,12 @@ Proof.
       + cbn. rewrite U1. apply Hg.
       + cbn. now rewrite P1.
       + exact N1.
-      + intros k Hk. exists d. rewrite Hc. apply Hex in Hk. now rewrite Hk.
+      + intros k Hk. exists (if k =? ign then DNil else d). rewrite Hc. apply Hex in Hk. now rewrite Hk.
       + intros k Hk. rewrite Hc. destruct (existsb (N.eqb k) (rev l)) eqn:E; [|reflexivity].
         apply Hex in E. contradiction.
     - intro k. rewrite Hc. repeat split.
-      + intros Hk _. apply Hiff, Hex in Hk. now rewrite Hk.
-      + intro Hk. exists d. apply Hiff, Hex in Hk. now rewrite Hk.
+      + intros Hk Hki. apply Hiff, Hex in Hk. rewrite Hk. destruct (N.eqb_spec k ign); [contradiction|reflexivity].
+      + intro Hk. exists (if k =? ign then DNil else d). apply Hiff, Hex in Hk. now rewrite Hk.
       + intro Hk. destruct (existsb (N.eqb k) (rev l)) eqn:E; [|reflexivity].
         apply Hex, Hiff in E. contradiction. }
   unfold set_value_ref. rewrite Hp.
@@ -589,4 +622,247 @@ Proof.
     + intro Hk. apply Hiff, existsb_eqb_in in Hk. now rewrite Hk.
     + intro Hk. destruct (existsb (N.eqb k) l) eqn:E; [|reflexivity].
       apply existsb_eqb_in, Hiff in E. contradiction.
+Qed.
+
+(* ---- forwarding: setValueRef with a value that is itself a pending pointer ---------------------- *)
+Lemma forwarded_good h h' p q l lq l1 :
+  good h -> get (ptrs h) p = Some l -> get (ptrs h) q = Some lq -> p <> q ->
+  ub h' = false -> ncell h' = ncell h ->
+  (forall r, get (ptrs h') r = if r =? p then None else if r =? q then Some (lq ++ l1) else get (ptrs h) r) ->
+  NoDup l1 -> (forall k, In k l1 -> In k l) ->
+  (forall k, In k l1 -> get (cells h') k = Some (VPtr q)) ->
+  (forall k, In k l -> ~ In k l1 -> exists d', get (cells h') k = Some (VD d')) ->
+  (forall k, ~ In k l -> get (cells h') k = get (cells h) k) ->
+  good h'.
+Proof.
+  intros Hg Hp Hq Hpq Hub' Hn Hptrs Hnd1 Hsub Hin1 Hin0 Hout.
+  pose proof (holds_iff_in h p l Hg Hp) as Hiffp.
+  pose proof (holds_iff_in h q lq Hg Hq) as Hiffq.
+  destruct Hg as [Hub [Hreg Hcell Hfresh]].
+  destruct (Hreg q lq Hq) as (Hneq & Hndq & Hhq).
+  assert (Hdisj : forall k, In k lq -> ~ In k l).
+  { intros k Hk Hl. apply Hiffq in Hk. apply Hiffp in Hl. unfold holds in *. congruence. }
+  split; [exact Hub'|]. constructor.
+  - intros r lr Hr. rewrite Hptrs in Hr.
+    destruct (N.eqb_spec r p) as [->|Hrp]; [discriminate|].
+    destruct (N.eqb_spec r q) as [->|Hrq].
+    + injection Hr as <-. split; [destruct lq; [congruence|discriminate]|].
+      split.
+      * apply nodup_app_intro; [exact Hndq|exact Hnd1|]. intros x Hx Hx1. apply (Hdisj x Hx). now apply Hsub.
+      * intros k Hk. split; [|discriminate]. apply in_app_or in Hk. destruct Hk as [Hk|Hk].
+        -- unfold holds. rewrite Hout by now apply Hdisj. now apply Hiffq.
+        -- now apply Hin1.
+    + destruct (Hreg r lr Hr) as (H1 & H2 & H3). split; [exact H1|]. split; [exact H2|].
+      intros k Hk. split; [|discriminate]. destruct (H3 k Hk) as [Hkr _].
+      unfold holds in *. rewrite Hout; [exact Hkr|]. intro Hkl. apply Hiffp in Hkl. unfold holds in Hkl. congruence.
+  - intros k r _ Hkr. unfold holds in Hkr.
+    destruct (in_dec N.eq_dec k l) as [Hkl|Hkl].
+    + destruct (in_dec N.eq_dec k l1) as [Hk1|Hk1].
+      * rewrite (Hin1 k Hk1) in Hkr. injection Hkr as <-. exists (lq ++ l1). rewrite Hptrs.
+        destruct (N.eqb_spec q p); [congruence|]. rewrite N.eqb_refl. split; [reflexivity|].
+        apply in_or_app. now right.
+      * destruct (Hin0 k Hkl Hk1) as [d' E]. congruence.
+    + rewrite Hout in Hkr by exact Hkl.
+      destruct (Hcell k r) as [lr [Hlr Hi]]; [discriminate|exact Hkr|].
+      assert (Hrp : r <> p) by (intro E; subst; apply Hkl; now apply Hiffp).
+      rewrite Hptrs. destruct (N.eqb_spec r p); [contradiction|].
+      destruct (N.eqb_spec r q) as [->|Hrq].
+      * assert (lr = lq) by congruence. subst lr. exists (lq ++ l1). split; [reflexivity|].
+        apply in_or_app. now left.
+      * exists lr. split; assumption.
+  - intros k Hk. rewrite Hn in Hk.
+    destruct (in_dec N.eq_dec k l) as [Hkl|Hkl].
+    + apply Hiffp in Hkl. unfold holds in Hkl. rewrite Hfresh in Hkl by exact Hk. discriminate.
+    + rewrite Hout by exact Hkl. now apply Hfresh.
+Qed.
+
+Lemma fwd_one_ok h x q lq : live h x -> get (ptrs h) q = Some lq ->
+  cells (fwd_one h x q) = set (cells h) x (Some (VPtr q)) /\
+  ptrs (fwd_one h x q) = set (ptrs h) q (Some (lq ++ [x])) /\
+  ncell (fwd_one h x q) = ncell h /\ ub (fwd_one h x q) = ub h /\
+  forall k, live h k -> live (fwd_one h x q) k.
+Proof.
+  intros Hl Hq. unfold fwd_one. rewrite (wr_live _ _ _ Hl). unfold ptr_add. cbn. rewrite Hq. cbn. repeat split.
+  intros k Hk. unfold live in *. cbn. rewrite get_set. destruct (k =? x); [discriminate|exact Hk].
+Qed.
+
+Lemma forward_all_ok q ign l : forall h lq, (forall c, In c l -> live h c) -> get (ptrs h) q = Some lq ->
+  ub (fold_left (forward_one q ign) l h) = ub h /\
+  ncell (fold_left (forward_one q ign) l h) = ncell h /\
+  (forall r, get (ptrs (fold_left (forward_one q ign) l h)) r =
+             if r =? q then Some (lq ++ filter (fun x => negb (x =? ign)) l) else get (ptrs h) r) /\
+  forall k, get (cells (fold_left (forward_one q ign) l h)) k =
+            if existsb (N.eqb k) l then Some (if k =? ign then VD DNil else VPtr q) else get (cells h) k.
+Proof.
+  induction l as [|a l IH]; intros h lq Hl Hq; cbn [fold_left existsb filter].
+  - repeat split. intro r. rewrite app_nil_r. destruct (N.eqb_spec r q) as [->|]; [exact Hq|reflexivity].
+  - assert (Hla : live h a) by (apply Hl; now left).
+    destruct (wr_ok h a (VD DNil) Hla) as (C1 & P1 & N1 & U1 & L1).
+    assert (S1 : exists lq',
+               lq' = (if a =? ign then lq else lq ++ [a]) /\
+               get (ptrs (forward_one q ign h a)) q = Some lq' /\
+               (forall r, r <> q -> get (ptrs (forward_one q ign h a)) r = get (ptrs h) r) /\
+               ub (forward_one q ign h a) = ub h /\ ncell (forward_one q ign h a) = ncell h /\
+               (forall k, get (cells (forward_one q ign h a)) k =
+                          if k =? a then Some (if a =? ign then VD DNil else VPtr q) else get (cells h) k) /\
+               forall k, live h k -> live (forward_one q ign h a) k).
+    { unfold forward_one. destruct (a =? ign).
+      - exists lq. split; [reflexivity|]. rewrite P1, U1, N1. repeat split; auto.
+        intro k. now rewrite C1, get_set.
+      - destruct (fwd_one_ok (wr h a (VD DNil)) a q lq) as (C2 & P2 & N2 & U2 & L2); [now apply L1|now rewrite P1|].
+        exists (lq ++ [a]). split; [reflexivity|]. rewrite P2, U2, N2, P1, U1, N1. repeat split; auto.
+        + apply gss.
+        + intros r Hr. now apply gso.
+        + intro k. rewrite C2, C1, !get_set. destruct (k =? a); reflexivity. }
+    destruct S1 as (lq' & Elq & Q1 & O1 & U2 & N2 & C2 & L2).
+    destruct (IH (forward_one q ign h a) lq') as (U3 & N3 & P3 & C3).
+    { intros c Hc. apply L2, Hl. now right. }
+    { exact Q1. }
+    rewrite U3, N3, U2, N2. repeat split.
+    + intro r. rewrite P3. destruct (N.eqb_spec r q) as [->|Hr]; [|now apply O1].
+      subst lq'. destruct (a =? ign); cbn [negb]; [reflexivity|]. now rewrite <- app_assoc.
+    + intro k. rewrite C3, C2. destruct (N.eqb_spec k a) as [->|Hn]; cbn [orb]; [|reflexivity].
+      destruct (existsb (N.eqb a) l); reflexivity.
+Qed.
+
+Theorem set_value_ref_fwd_ok h p q ign l lq : good h ->
+  get (ptrs h) p = Some l -> get (ptrs h) q = Some lq -> p <> q ->
+  good (set_value_ref_fwd h p q ign) /\ ncell (set_value_ref_fwd h p q ign) = ncell h /\
+  forall k, (holds h k p -> k <> ign -> holds (set_value_ref_fwd h p q ign) k q) /\
+            (holds h k p -> k = ign -> get (cells (set_value_ref_fwd h p q ign)) k = Some (VD DNil)) /\
+            (~ holds h k p -> get (cells (set_value_ref_fwd h p q ign)) k = get (cells h) k).
+Proof.
+  intros Hg Hp Hq Hpq.
+  pose proof (holds_iff_in h p l Hg Hp) as Hiff.
+  assert (Hlive : forall c, In c l -> live h c).
+  { intros c Hc. apply Hiff in Hc. unfold holds, live in *. congruence. }
+  assert (Hnd : NoDup l) by (destruct Hg as [_ [Hreg _ _]]; now destruct (Hreg p _ Hp) as (_ & H & _)).
+  assert (General :
+    good (free_ptr (fold_left (forward_one q ign) (rev l) h) p) /\
+    ncell (free_ptr (fold_left (forward_one q ign) (rev l) h) p) = ncell h /\
+    forall k, (holds h k p -> k <> ign -> holds (free_ptr (fold_left (forward_one q ign) (rev l) h) p) k q) /\
+              (holds h k p -> k = ign -> get (cells (free_ptr (fold_left (forward_one q ign) (rev l) h) p)) k = Some (VD DNil)) /\
+              (~ holds h k p -> get (cells (free_ptr (fold_left (forward_one q ign) (rev l) h) p)) k = get (cells h) k)).
+  { destruct (forward_all_ok q ign (rev l) h lq) as (U1 & N1 & P1 & C1).
+    { intros c Hc. apply Hlive. now apply in_rev. }
+    { exact Hq. }
+    set (h1 := fold_left (forward_one q ign) (rev l) h) in *.
+    assert (Hc : forall k, get (cells (free_ptr h1 p)) k =
+                 if existsb (N.eqb k) (rev l) then Some (if k =? ign then VD DNil else VPtr q) else get (cells h) k) by exact C1.
+    assert (Hex : forall k, existsb (N.eqb k) (rev l) = true <-> In k l).
+    { intro k. rewrite existsb_eqb_in. symmetry. apply in_rev. }
+    set (l1 := filter (fun x => negb (x =? ign)) (rev l)).
+    assert (Hl1 : forall k, In k l1 <-> In k l /\ k <> ign).
+    { intro k. unfold l1. rewrite filter_In, <- in_rev. split; intros [H1 H2]; split; auto.
+      - destruct (N.eqb_spec k ign); [discriminate|assumption].
+      - destruct (N.eqb_spec k ign); [contradiction|reflexivity]. }
+    split; [|split; [exact N1|]].
+    - apply (forwarded_good h _ p q l lq l1 Hg Hp Hq Hpq).
+      + cbn. rewrite U1. apply Hg.
+      + exact N1.
+      + intro r. cbn [ptrs free_ptr]. rewrite get_set. destruct (r =? p); [reflexivity|]. apply P1.
+      + unfold l1. apply NoDup_filter. now apply NoDup_rev.
+      + intros k Hk. now apply Hl1.
+      + intros k Hk. apply Hl1 in Hk. destruct Hk as [Hk Hi]. rewrite Hc. apply Hex in Hk. rewrite Hk.
+        destruct (N.eqb_spec k ign); [contradiction|reflexivity].
+      + intros k Hk Hk1. exists DNil. rewrite Hc. pose proof Hk as Hk'. apply Hex in Hk'. rewrite Hk'.
+        destruct (N.eqb_spec k ign) as [E|E]; [reflexivity|]. exfalso. apply Hk1. now apply Hl1.
+      + intros k Hk. rewrite Hc. destruct (existsb (N.eqb k) (rev l)) eqn:E; [|reflexivity].
+        apply Hex in E. contradiction.
+    - intro k. unfold holds at 2. rewrite !Hc. repeat split.
+      + intros Hk Hki. apply Hiff, Hex in Hk. rewrite Hk. destruct (N.eqb_spec k ign); [contradiction|reflexivity].
+      + intros Hk Hki. apply Hiff, Hex in Hk. rewrite Hk. destruct (N.eqb_spec k ign); [reflexivity|contradiction].
+      + intro Hk. destruct (existsb (N.eqb k) (rev l)) eqn:E; [|reflexivity].
+        apply Hex, Hiff in E. contradiction. }
+  unfold set_value_ref_fwd. rewrite Hp.
+  destruct l as [|c0 [|c1 [|c2 l']]]; try exact General.
+  clear General.
+  assert (H01 : c0 <> c1).
+  { inversion Hnd as [|x y Hn _]; subst. intro E. apply Hn. now left. }
+  destruct (wr_ok h c0 (VD DNil)) as (C1 & P1 & N1 & U1 & L1); [apply Hlive; now left|].
+  destruct (wr_ok (wr h c0 (VD DNil)) c1 (VD DNil)) as (C2 & P2 & N2 & U2 & L2).
+  { apply L1. apply Hlive. right. now left. }
+  set (h1 := wr (wr h c0 (VD DNil)) c1 (VD DNil)) in *.
+  assert (Hl0 : live h1 c0) by (apply L2, L1, Hlive; now left).
+  assert (Hl1 : live h1 c1) by (apply L2, L1, Hlive; right; now left).
+  assert (Hq1 : get (ptrs h1) q = Some lq) by now rewrite P2, P1.
+  assert (Base : forall k, get (cells h1) k =
+                 if k =? c1 then Some (VD DNil) else if k =? c0 then Some (VD DNil) else get (cells h) k).
+  { intro k. rewrite C2, C1, !get_set. reflexivity. }
+  assert (Hin2 : forall k, In k [c0; c1] <-> k = c0 \/ k = c1).
+  { intro k. cbn. split; [intros [E|[E|[]]]; auto|intros [E|E]; auto]. }
+  set (h2 := if c0 =? ign then fwd_one h1 c1 q else if c1 =? ign then fwd_one h1 c0 q else fwd_one (fwd_one h1 c1 q) c0 q).
+  (* which holders receive the pointer *)
+  set (l1 := if c0 =? ign then [c1] else if c1 =? ign then [c0] else [c1; c0]).
+  assert (F : ub h2 = ub h /\ ncell h2 = ncell h /\
+              (forall r, get (ptrs h2) r = if r =? q then Some (lq ++ l1) else get (ptrs h) r) /\
+              (forall k, In k l1 -> get (cells h2) k = Some (VPtr q)) /\
+              (forall k, In k [c0; c1] -> ~ In k l1 -> get (cells h2) k = Some (VD DNil)) /\
+              (forall k, ~ In k [c0; c1] -> get (cells h2) k = get (cells h) k)).
+  { unfold h2, l1. destruct (N.eqb_spec c0 ign) as [E0|E0]; [|destruct (N.eqb_spec c1 ign) as [E1|E1]].
+    - destruct (fwd_one_ok h1 c1 q lq Hl1 Hq1) as (C3 & P3 & N3 & U3 & _).
+      rewrite U3, N3, U2, N2, U1, N1. repeat split.
+      + intro r. rewrite P3, get_set, P2, P1. reflexivity.
+      + intros k [<-|[]]. rewrite C3. apply gss.
+      + intros k Hk Hk1. apply Hin2 in Hk. destruct Hk as [->| ->]; [|exfalso; apply Hk1; now left].
+        rewrite C3, gso by exact H01. rewrite Base. destruct (c0 =? c1); [reflexivity|]. now rewrite N.eqb_refl.
+      + intros k Hk. rewrite C3, gso by (intro; subst; apply Hk; apply Hin2; auto). rewrite Base.
+        destruct (N.eqb_spec k c1); [exfalso; apply Hk; apply Hin2; auto|].
+        destruct (N.eqb_spec k c0); [exfalso; apply Hk; apply Hin2; auto|reflexivity].
+    - destruct (fwd_one_ok h1 c0 q lq Hl0 Hq1) as (C3 & P3 & N3 & U3 & _).
+      rewrite U3, N3, U2, N2, U1, N1. repeat split.
+      + intro r. rewrite P3, get_set, P2, P1. reflexivity.
+      + intros k [<-|[]]. rewrite C3. apply gss.
+      + intros k Hk Hk1. apply Hin2 in Hk. destruct Hk as [->| ->]; [exfalso; apply Hk1; now left|].
+        rewrite C3, gso by congruence. rewrite Base. now rewrite N.eqb_refl.
+      + intros k Hk. rewrite C3, gso by (intro; subst; apply Hk; apply Hin2; auto). rewrite Base.
+        destruct (N.eqb_spec k c1); [exfalso; apply Hk; apply Hin2; auto|].
+        destruct (N.eqb_spec k c0); [exfalso; apply Hk; apply Hin2; auto|reflexivity].
+    - destruct (fwd_one_ok h1 c1 q lq Hl1 Hq1) as (C3 & P3 & N3 & U3 & L3).
+      destruct (fwd_one_ok (fwd_one h1 c1 q) c0 q (lq ++ [c1])) as (C4 & P4 & N4 & U4 & _); [now apply L3|rewrite P3; apply gss|].
+      rewrite U4, N4, U3, N3, U2, N2, U1, N1. repeat split.
+      + intro r. rewrite P4, get_set, P3, get_set, P2, P1. rewrite <- app_assoc. cbn [app].
+        destruct (r =? q); reflexivity.
+      + intros k [<-|[<-|[]]]; rewrite C4.
+        * rewrite gso by congruence. rewrite C3. apply gss.
+        * apply gss.
+      + intros k Hk Hk1. exfalso. apply Hk1. apply Hin2 in Hk. destruct Hk as [->| ->]; [right; now left|now left].
+      + intros k Hk. rewrite C4, gso by (intro; subst; apply Hk; apply Hin2; auto).
+        rewrite C3, gso by (intro; subst; apply Hk; apply Hin2; auto). rewrite Base.
+        destruct (N.eqb_spec k c1); [exfalso; apply Hk; apply Hin2; auto|].
+        destruct (N.eqb_spec k c0); [exfalso; apply Hk; apply Hin2; auto|reflexivity]. }
+  destruct F as (FU & FN & FP & F1 & F0 & FO).
+  assert (Hl1sub : forall k, In k l1 <-> In k [c0; c1] /\ k <> ign).
+  { intro k. unfold l1. rewrite Hin2.
+    destruct (N.eqb_spec c0 ign) as [E0|E0]; [|destruct (N.eqb_spec c1 ign) as [E1|E1]]; cbn; split.
+    - intros [<-|[]]. split; [now right|congruence].
+    - intros [[->| ->] Hn]; [congruence|now left].
+    - intros [<-|[]]. split; [now left|exact E0].
+    - intros [[->| ->] Hn]; [now left|congruence].
+    - intros [<-|[<-|[]]]; split; auto.
+    - intros [[->| ->] Hn]; auto. }
+  split; [|split; [exact FN|]].
+  - apply (forwarded_good h _ p q [c0; c1] lq l1 Hg Hp Hq Hpq).
+    + cbn. rewrite FU. apply Hg.
+    + exact FN.
+    + intro r. cbn [ptrs free_ptr]. rewrite get_set. destruct (r =? p); [reflexivity|]. apply FP.
+    + unfold l1. destruct (c0 =? ign); [repeat constructor; intros []|].
+      destruct (c1 =? ign); [repeat constructor; intros []|].
+      constructor; [intros [E|[]]; congruence|repeat constructor; intros []].
+    + intros k Hk. now apply Hl1sub.
+    + exact F1.
+    + intros k Hk Hk1. exists DNil. now apply F0.
+    + exact FO.
+  - intro k. cbn [cells free_ptr]. unfold holds at 2. cbn [cells free_ptr]. repeat split.
+    + intros Hk Hki. apply F1. apply Hl1sub. split; [now apply Hiff|exact Hki].
+    + intros Hk Hki. apply F0; [now apply Hiff|]. intro H. apply Hl1sub in H. tauto.
+    + intro Hk. apply FO. intro H. apply Hk. now apply Hiff.
+Qed.
+
+Lemma holds_dec h k p : {holds h k p} + {~ holds h k p}.
+Proof.
+  unfold holds. destruct (get (cells h) k) as [[d|q]|].
+  - right. discriminate.
+  - destruct (N.eq_dec q p) as [->|Hn]; [now left|right; congruence].
+  - right. discriminate.
 Qed.
